@@ -16,7 +16,13 @@ cp -r $demo $sw-demo
 sed -i "s#=> /tmp/mut/[A-Z0-9]*/wt#=> $sw#" $sw-demo/go.mod
 cp /repo/go.sum $sw-demo/go.sum 2>/dev/null
 tags=""; grep -q "tags verif" $(dirname $patch)/RUN.md 2>/dev/null && tags="-tags verif"
-rundemo() { (cd $sw-demo && timeout 300 go test $tags -count=1 ./... >/tmp/seed-demo.log 2>&1); echo $?; }
+rundemo() {
+  if ls $sw-demo/*_test.go >/dev/null 2>&1; then
+    (cd $sw-demo && timeout 300 go test $tags -count=1 ./... >/tmp/seed-demo.log 2>&1); echo $?
+  else
+    (cd $sw-demo && timeout 300 go run $tags . >/tmp/seed-demo.log 2>&1); echo $?   # the demo is a program
+  fi
+}
 clean_rc=$(rundemo)
 applies=0; git -C $sw apply $patch 2>/dev/null && applies=1
 build_rc=-1; suite_rc=-1; mut_rc=-1
